@@ -42,6 +42,17 @@ def scratch_copy() -> str:
 def run_variant(v: dict) -> dict:
     d = scratch_copy()
     try:
+        if v.get('transform') == 'unparse-all':
+            # behaviour-preserving rewrite of the whole Python side: normalised formatting, comments stripped
+            import ast as _ast
+            for root, _dirs, files in os.walk(os.path.join(d, 'generation')):
+                for fn in files:
+                    if fn.endswith('.py'):
+                        fp = os.path.join(root, fn)
+                        with open(fp, encoding='utf-8') as f:
+                            src = f.read()
+                        with open(fp, 'w', encoding='utf-8') as f:
+                            f.write(_ast.unparse(_ast.parse(src)) + '\n')
         for path, old, new in v['edits']:
             fp = os.path.join(d, path)
             if not os.path.exists(fp):
